@@ -37,6 +37,10 @@ type seqOp struct {
 	Aged  int    `json:"aged"`
 	Floor uint64 `json:"floor"`
 	TExp  uint64 `json:"texp"`
+	Crash int    `json:"crash"`
+	Bad   int    `json:"bad"`
+	Fk    string `json:"fk"`
+	NDels int    `json:"ndels"`
 }
 
 type seqBehaviour struct {
@@ -71,6 +75,7 @@ func boundsFor(env *kb.Env, nkeys int) []bound {
 }
 
 type reader struct {
+	pname string
 	env   *kb.Env
 	n     int
 	agree *[]string
@@ -98,10 +103,17 @@ func (r *reader) note(s string) {
 	}
 }
 
+func (r *reader) proc() string {
+	if r.pname != "" {
+		return r.pname
+	}
+	return "rd"
+}
+
 func (r *reader) get(k int, rev uint64) {
 	env := r.env
 	r.n++
-	p := "rd"
+	p := r.proc()
 	env.Rec.Log(gate.Event{"e": "RInvoke", "p": p, "op": "get", "k": k, "lo": k, "hi": k + 1, "rev": gate.Clip(rev), "limit": 0, "pfx": -1})
 	resp, err := env.B.Get(context.Background(), &proto.GetRequest{Key: env.Keys.Raw(k), Revision: rev})
 	ev := gate.Event{"e": "RReturn", "p": p, "op": "get", "err": errStr(err), "hdr": 0, "kvs": []interface{}{}, "more": false, "count": 0}
@@ -118,7 +130,7 @@ func (r *reader) get(k int, rev uint64) {
 func (r *reader) list(lo, hi bound, rev uint64, limit int64, pfx int) {
 	env := r.env
 	r.n++
-	p := "rd"
+	p := r.proc()
 	env.Rec.Log(gate.Event{"e": "RInvoke", "p": p, "op": "list", "k": 0, "lo": lo.ceil, "hi": hi.ceil, "rev": gate.Clip(rev), "limit": limit, "pfx": pfx,
 		"rawlo": strings.TrimPrefix(lo.raw, env.Prefix), "rawhi": strings.TrimPrefix(hi.raw, env.Prefix)})
 	resp, err := env.B.List(context.Background(), &proto.RangeRequest{Key: []byte(lo.raw), End: []byte(hi.raw), Revision: rev, Limit: limit})
@@ -315,13 +327,27 @@ func runSeqHistory(eng *kb.Engine, engName string, b *seqBehaviour, rnd *rand.Ra
 				opt.beforeCompact(env, o)
 			}
 			minunc := backend.VerifRetryMinRevision(env.B)
-			env.Rec.Log(gate.Event{"e": "CInvoke", "p": "c1", "req": gate.Clip(o.Req)})
+			// fault plan of this compaction: the bad-th issued deletion fails with outcome fk,
+			// the worker dies when it is about to issue deletion number crash+1
+			issued := 0
+			env.Store.DelFault = func(proc string, nth int, e gate.Event) string {
+				issued++
+				if o.Fk != "" && o.Fk != "ok" && issued == o.Bad {
+					return o.Fk
+				}
+				if o.Crash < o.NDels && issued == o.Crash+1 {
+					return "die"
+				}
+				return ""
+			}
+			env.Rec.Log(gate.Event{"e": "CInvoke", "p": "c1", "req": gate.Clip(o.Req), "crash": o.Crash, "bad": o.Bad, "fk": o.Fk})
 			resp, err := env.B.Compact(context.Background(), o.Req)
 			hdr := uint64(0)
 			if err == nil {
 				hdr = resp.Header.GetRevision()
 			}
 			env.Rec.Log(gate.Event{"e": "CReturn", "p": "c1", "req": gate.Clip(o.Req), "hdr": gate.Clip(hdr), "err": errStr(err), "minunc": gate.Clip(minunc)})
+			env.Store.DelFault = nil
 			transcript = append(transcript, fmt.Sprintf("compact %d -> %d %v", o.Req, hdr, errStr(err)))
 			if err != nil || hdr != o.Hdr {
 				notes = append(notes, fmt.Sprintf("op %d compact(%d): real hdr %d err %v, spec hdr %d", i, o.Req, hdr, err, o.Hdr))
